@@ -80,7 +80,7 @@ class History:
         c = [o for o in self.pool if o.kind == kind and (universe is None or o.universe == universe)]
         if nonzero:
             # well-conditioned non-zero: the dense norm is not at cancellation level relative to the product of the tensor norms
-            c = [o for o in c if o.shadow is None or np.linalg.norm(o.shadow) > 1e-6 * tensor_scale(o.obj)]
+            c = [o for o in c if o.shadow is None or np.linalg.norm(o.shadow) > max(1e-8, 1e-6 * tensor_scale(o.obj))]
         return c[int(self.rng.integers(0, len(c)))] if c else None
 
     def new_state(self):
@@ -133,7 +133,7 @@ class History:
             mode = str(rng.choice(['left', 'right']))
             ends = (o.obj.qD[0].copy(), o.obj.qD[-1].copy())
             sc0 = tensor_scale(o.obj)
-            nz = np.linalg.norm(o.shadow) > 1e-6 * sc0
+            nz = np.linalg.norm(o.shadow) > max(1e-8, 1e-6 * sc0)
             nrm = o.obj.orthonormalize(mode)
             self.hist.append(f'orth-{mode}')
             ctx.close('step.orthonormalize-factor', abs(float(nrm) - np.linalg.norm(o.shadow)), 1e-9 * max(1, np.linalg.norm(o.shadow)) + 1e-12 * sc0, 'factor != norm', detail)
@@ -158,7 +158,7 @@ class History:
                 new = refs.dense_state(o.obj.A)
                 err = np.linalg.norm(float(nrm) * float(sc) * new - o.shadow)
                 n0 = np.linalg.norm(o.shadow)
-                ctx.ok('step.compress-error-bound', err <= n0 * (np.sqrt(self.L * tol) + 1e-9), f'compress error {err / n0:.2e} > sqrt(L tol)', detail)
+                ctx.ok('step.compress-error-bound', err <= n0 * (np.sqrt(self.L * tol) + 1e-9) + 1e-12, f'compress error {err / n0:.2e} > sqrt(L tol)', detail)
                 ctx.ok('step.compress-bonds', all(a <= b for a, b in zip(o.obj.bond_dims, Dold)), 'compress increased a bond dimension', detail)
                 o.shadow = new
         elif op == 'addsub':
